@@ -62,7 +62,9 @@ CHECKS = {
              "write/read of another client; TLC validates the trace against Trace_Robust (every line "
              "answered value/ok/error, no panic, no poisoned lock, probe still served, rejected lines "
              "change nothing). Seeded longer sequences and random byte strings on top; a sample of the cases "
-             "also goes through the real TCP server (a panic ends the connection thread: no reply).",
+             "also goes through the real TCP server (a panic ends the connection thread: no reply). The node's "
+             "real replication loop (the service thread of main.rs) runs next to the handlers, is fed every "
+             "message they queue and must still be alive after every line.",
         note="exploration, not a proof over all byte strings; most lines enter at process_request (a panic "
              "there is what kills an HTTP worker / TCP connection thread); dev profile",
         technique="TLC-enumerated input space + TLC trace validation of real runs (robustness spec)",
@@ -102,7 +104,10 @@ CHECKS = {
              "forces them on the real code, and TLC validates each run against Trace_KVLin group WATCH: "
              "every committed change inside a subscription interval is notified exactly once, nothing for "
              "refused writes / unwatched keys / after unsubscribing, another client's watch / unwatch / "
-             "disconnect never drops a subscription, highest-versioned notification is current.",
+             "disconnect never drops a subscription, highest-versioned notification is current. Plus MC_Watch "
+             "(TLC, exhaustive): subscriptions across two databases with sessions that select the other "
+             "database, unwatch, disconnect (leaving entries with a closed channel behind) and writes in "
+             "either database, run sequentially on the real node and judged by NunKV group WATCH.",
         note="interleavings at yield-hook granularity; notifications attributed to writes by distinguishable "
              "values; a client never watches a key twice; channel capacity (100 lines) not exceeded",
         technique="TLA+ trace spec with call/linearisation/return indices + TLC trace validation; TLC-generated schedules",
@@ -165,11 +170,18 @@ CHECKS = {
              "directory is imaged after every call of the interrupted snapshot, every image is loaded by "
              "the real start-up code, and TLC validates each image against the reference Trace_Crash "
              "(start succeeds; every previously persisted key has its old or its being-written value and "
-             "version; no phantom key; neighbours untouched).",
+             "version; no phantom key; neighbours untouched). Design level: NunDiskCrash / NunDiskBytes model the "
+             "write plan of storage_data_disk call by call (record encodings, BufWriter rule, in-place "
+             "updates, renames) and the loader on torn files byte by byte; TLC explores client operations, "
+             "snapshots and a kill between any two calls (invariants RestoreExact, AddrsValid, CrashSafeOrKnown; "
+             "CrashSafe for a repaired plan). Conformance: every image's files must equal the files the model "
+             "predicts for that cut and the loaded contents what the modelled loader reads from them; a failing "
+             "image is accepted as a recorded finding only while the run follows the model.",
         note="kill model = process kill between file-system calls (buffered bytes lost, written bytes kept); "
              "power loss and torn single writes out of scope; start-up probed in a child process with "
              "address-space and time limits",
-        technique="TLA+ reference trace spec + TLC validation of crash images enumerated at every file-system call",
+        technique="TLA+ byte-level model of the write plan and loader (TLC exploration with kills) + TLC trace validation of "
+                  "crash images enumerated at every file-system call against the model and the reference",
         design="DESIGN.md §5 C11"),
     "C04": dict(
         level="model_checking",
